@@ -311,6 +311,11 @@ def one_off_default(ctx):
         var(f"table.{m}.{cell}={v}", f)
     var("table.order", lambda c: c["handler"]["table"].reverse())
     var("threshold", lambda c: c["matcher"]["thr"].__setitem__("q", [1, 4]))
+    # settings whose value is falsy although it is not "unset": a zero threshold, a zero decision threshold
+    var("threshold zero", lambda c: c["matcher"]["thr"].__setitem__("q", [0, 1]))
+    var("merge matcher, threshold zero", lambda c: c.__setitem__("matcher", E.merge("DSC", (0, 1))))
+    var("decision zero", lambda c: c.__setitem__("decision", ["IOU", {"q": [0, 1]}]))
+    var("decision zero (ASSD)", lambda c: c.__setitem__("decision", ["ASSD", {"q": [0, 1]}]))
     var("m2o", lambda c: c["matcher"].__setitem__("m2o", True))
     var("matching_metric", lambda c: c["matcher"].__setitem__("metric", "DSC"))
     var("merge matcher", lambda c: c.__setitem__("matcher", E.merge("IOU", (1, 2))))
